@@ -62,7 +62,7 @@ FLOORS = {
         'rezero_took_token': 50, 'race_orderings_distinct': 100,
         'gate_hit': 80, 'quiescent_checks': 1000,
         'event_histories': 200, 'event_ops': 800, 'event_wait_true': 120,
-        'event_wait_false': 10, 'event_concurrent_histories': 40,
+        'event_wait_false': 4, 'event_concurrent_histories': 40,
         'event_seq_ops': 1800,
         'mutex_sections': 7000, 'mutex_contended': 500, 'sem_full_occupancy': 1,
         'nonblocking_refused': 150, 'over_release_refused': 80,
